@@ -383,6 +383,53 @@ theorem C19_history (geo : Geo α) (pick : Pick α) (iw : Bool) (ord : Nat → L
         obtain ⟨net', h1, h2⟩ := ih net i rs' hr
         exact ⟨net', by simpa [linksOf] using h1, by simpa [queriesIn] using h2⟩
 
+/-! ### the chord hypothesis cannot be dropped (known finding "identification gaps") -/
+
+def absQ (a : ℚ) : ℚ := if a < 0 then -a else a
+/-- Manhattan geometry, exact-position lookup -/
+def geoW : Geo ℚ :=
+  { nearest := fun l p => l.find? fun m => decide (m.p.x = p.x ∧ m.p.y = p.y)
+    ptEq := fun p q => decide (p.x = q.x ∧ p.y = q.y)
+    length := fun _ => 0
+    euclid := fun p q => absQ (p.x - q.x) + absQ (p.y - q.y)
+    one := 1 }
+
+/-- nodes 1 (0,0), 2 (10,0), 3 (20,0); link 2–3 is 8 long although its end nodes are 10 apart (its end
+vertex near node 2 lies 2 closer to node 3, inside the identification tolerance at that magnitude);
+the direct link 1–3 is 19 long -/
+def netW : Net ℚ :=
+  { opt := .distance
+    nodes := [⟨1, ⟨0, 0⟩⟩, ⟨2, ⟨10, 0⟩⟩, ⟨3, ⟨20, 0⟩⟩]
+    edges := [⟨0, 1, 2, 10, 1, 10⟩, ⟨1, 2, 3, 8, 1, 8⟩, ⟨2, 1, 3, 19, 1, 19⟩]
+    maxID := 3
+    maxSpeed := 1 }
+
+def routeDist (r : Except Fault (Route ℚ)) : ℚ := match r with | .ok r => r.distance | .error _ => 0
+
+
+/-- **Negation witness for the unconditional statement.**  `C19_route` assumes (through `Consistent`,
+i.e. `GeoOk.chord`) that every link is at least as long as the distance between its END NODES.
+When a link's end vertex is merely near its node (inside `op.PointEquals`' tolerance) that fails by
+the size of the gap, the heuristic overestimates, and the modelled A* — like the real code on the
+corpus case `gap` — returns the direct link of length 19 although the chain over node 2 costs 18;
+all other hypotheses of `C19_route` hold.  `C19_route`/`C19_built` are therefore the strongest
+true statements of their shape (partial: exact minimality needs `hchord`). -/
+theorem C19_gap_not_minimal :
+    routeDist (shortestRoute geoW pickMin true (fun _ l => l) netW ⟨0, 0⟩ ⟨20, 0⟩) = 19 ∧
+    EChain 1 [(⟨0, 1, 2, 10, 1, 10⟩ : MEdge ℚ), ⟨1, 2, 3, 8, 1, 8⟩] 3 ∧
+    (∀ e ∈ [(⟨0, 1, 2, 10, 1, 10⟩ : MEdge ℚ), ⟨1, 2, 3, 8, 1, 8⟩], e ∈ netW.edges) ∧
+    esum (ecost netW.opt) [(⟨0, 1, 2, 10, 1, 10⟩ : MEdge ℚ), ⟨1, 2, 3, 8, 1, 8⟩] = 18 ∧
+    WF netW ∧ NoParallel netW := by
+  refine ⟨by decide +kernel, by simp [EChain], by simp [netW], by norm_num [esum, ecost, netW], ?_, ?_⟩
+  · refine ⟨?_, ?_, ?_, ?_⟩
+    · intro e he; simp [netW] at he; rcases he with rfl | rfl | rfl <;> norm_num
+    · intro e he; simp [netW] at he; rcases he with rfl | rfl | rfl <;> norm_num
+    · intro e he; simp [netW] at he; rcases he with rfl | rfl | rfl <;> simp [hasNode, netW]
+    · intro m hm; simp [netW] at hm; rcases hm with rfl | rfl | rfl <;> simp [netW]
+  · intro e he e' he' u v h1 h2
+    simp [netW] at he he'
+    rcases he with rfl | rfl | rfl <;> rcases he' with rfl | rfl | rfl <;> simp [Joins] at h1 h2 ⊢ <;> omega
+
 /-! ### non-vacuity: the hypotheses are satisfiable together (a two-link network over ℚ) -/
 
 example : PickSpec (pickMin : Pick ℚ) := pickMin_spec
